@@ -28,6 +28,9 @@ pub fn opts() -> GenOpts {
     o.env_only = false;
     o.custom_help = true;
     o.pure_fail = true;
+    // `construct!([named_only, cmd, words])`: an alternative that succeeds on nothing, listed
+    // before the commands
+    o.cmd_or_words = true;
     o
 }
 
@@ -231,6 +234,7 @@ pub fn run_case(case: &mut Case) {
     levels(&spec, &mut Vec::new(), &mut lv);
     case.rep.max("levels_max", lv.len() as u64);
 
+    let root_parser = build_options(&spec);
     for (path, level, _level_hidden) in lv {
         let parser = build_options(level);
         let hn = level.help_names();
@@ -299,6 +303,49 @@ pub fn run_case(case: &mut Case) {
         case.rep.count(&format!("depth:{}", path.len()));
         let screen = tokenize(&text);
         let view = level_view(level);
+        // the same screen is what the user gets by asking from the top: `app cmd sub --help`
+        if !path.is_empty() {
+            let mut through: Vec<Vec<u8>> = path.iter().map(|p| p.as_bytes().to_vec()).collect();
+            through.push(help_item.as_bytes().to_vec());
+            let os = crate::outcome::to_os(&through);
+            let (res, _) = guarded(RENDER_FUEL, || {
+                match root_parser.run_inner(Args::from(os.as_slice())) {
+                    Err(ParseFailure::Stdout(doc, _)) => Ok(format!("{:60000}", doc)),
+                    other => Err(crate::outcome::normalise(other).0),
+                }
+            });
+            match res {
+                Ok(Ok(t)) => {
+                    case.rep.count("help-screens-through-the-root");
+                    let outer = tokenize(&t);
+                    if let Some(missing) = screen
+                        .terms
+                        .iter()
+                        .find(|l| !outer.terms.iter().any(|o| o.term == l.term))
+                    {
+                        case.rep.violation(
+                            "help-through-parent-is-another-screen",
+                            "completeness",
+                            case.index,
+                            J::obj()
+                                .set("definition", spec.pretty())
+                                .set("argv", crate::json::show_argv(&through))
+                                .set(
+                                    "problem",
+                                    format!(
+                                        "term {:?} of the level's own help screen is not on the screen printed for this line",
+                                        missing.term
+                                    ),
+                                )
+                                .set("help_text", crate::outcome::clip(&t))
+                                .set("level_help_text", crate::outcome::clip(&text)),
+                        );
+                    }
+                }
+                // an enclosing level that is not satisfied answers first: C10's subject
+                _ => case.rep.count("help-through-the-root:no-screen"),
+            }
+        }
         let detail = |problem: String| {
             J::obj()
                 .set("level", level.pretty())
